@@ -105,7 +105,7 @@ def polargrid_instance(G, layer, rules, maxr, maxt, hashes=None, const_shape=Non
     return "\n".join(out) + "\n"
 
 
-def grid_setup_concrete(G, nr, ntheta, nsc, symbolic_geometry=True, consistent_radii=True):
+def grid_setup_concrete(G, nr, ntheta, nsc, antipodal=False):
     """Harness text: give instance G a concrete shape; radii/angles/spacings are symbolic reals with the
     class invariant of PolarGrid (strictly increasing radii from R0 > 0, positive spacings equal to the
     coordinate differences)."""
@@ -122,7 +122,11 @@ def grid_setup_concrete(G, nr, ntheta, nsc, symbolic_geometry=True, consistent_r
         t.append("  %s__radii_[%d] = %s__radii_[%d] + %s__radial_spacings_[%d];" % (G, i + 1, G, i, G, i))
     t.append("  %s__angles_[0] = 0;" % G)
     for j in range(ntheta):
-        t.append("  %s__angular_spacings_[%d] = nondet_real(); __CPROVER_assume(%s__angular_spacings_[%d] > 0);" % (G, j, G, j))
+        if antipodal and ntheta % 2 == 0 and j >= ntheta // 2:
+            # PolarGrid::checkParameters: every angle has its opposite (theta + pi) in the grid
+            t.append("  %s__angular_spacings_[%d] = %s__angular_spacings_[%d];" % (G, j, G, j - ntheta // 2))
+        else:
+            t.append("  %s__angular_spacings_[%d] = nondet_real(); __CPROVER_assume(%s__angular_spacings_[%d] > 0);" % (G, j, G, j))
         t.append("  %s__angles_[%d] = %s__angles_[%d] + %s__angular_spacings_[%d];" % (G, j + 1, G, j, G, j))
     return "\n".join(t) + "\n"
 
@@ -197,3 +201,177 @@ def check_call_sites(text, callee, kinds):
                 raise ExtractError("call of %s passes `%s` for reference parameter `%s`" % (callee, a, name))
         n += 1
     return n
+
+
+# --------------------------------------------------------------------------------------
+# LevelCache instance (R10 class instantiation) and geometry / profile providers
+# --------------------------------------------------------------------------------------
+LC_VECS = {"sin_theta_": "t", "cos_theta_": "t", "coeff_alpha_": "r", "coeff_beta_": "r",
+           "arr_": "n", "att_": "n", "art_": "n", "detDF_": "n"}
+LC_ACCESSORS = {"sin_theta": "sin_theta_", "cos_theta": "cos_theta_", "coeff_alpha": "coeff_alpha_",
+                "coeff_beta": "coeff_beta_", "arr": "arr_", "att": "att_", "art": "art_", "detDF": "detDF_",
+                "cacheDensityProfileCoefficients": "cache_density_profile_coefficients_",
+                "cacheDomainGeometry": "cache_domain_geometry_",
+                "densityProfileCoefficients": "density_profile_coefficients_", "domainGeometry": "domain_geometry_"}
+LC_SCALARS = ["cache_density_profile_coefficients_", "cache_domain_geometry_"]
+LC_OBJS = ["domain_geometry_", "density_profile_coefficients_"]
+
+PROVIDERS = r"""
+/* ---- geometry and coefficient providers: uninterpreted functions (only functional consistency is used) ---- */
+real_t __CPROVER_uninterpreted_alpha(real_t);   real_t __CPROVER_uninterpreted_beta(real_t);
+real_t __CPROVER_uninterpreted_dFx_dr(real_t, real_t, real_t, real_t);
+real_t __CPROVER_uninterpreted_dFy_dr(real_t, real_t, real_t, real_t);
+real_t __CPROVER_uninterpreted_dFx_dt(real_t, real_t, real_t, real_t);
+real_t __CPROVER_uninterpreted_dFy_dt(real_t, real_t, real_t, real_t);
+real_t __CPROVER_uninterpreted_sin(real_t);     real_t __CPROVER_uninterpreted_cos(real_t);
+static real_t prov_alpha(const real_t r) { return __CPROVER_uninterpreted_alpha(r); }
+static real_t prov_beta(const real_t r) { return __CPROVER_uninterpreted_beta(r); }
+static real_t prov_dFx_dr(const real_t r, const real_t t, const real_t s, const real_t c) { return __CPROVER_uninterpreted_dFx_dr(r, t, s, c); }
+static real_t prov_dFy_dr(const real_t r, const real_t t, const real_t s, const real_t c) { return __CPROVER_uninterpreted_dFy_dr(r, t, s, c); }
+static real_t prov_dFx_dt(const real_t r, const real_t t, const real_t s, const real_t c) { return __CPROVER_uninterpreted_dFx_dt(r, t, s, c); }
+static real_t prov_dFy_dt(const real_t r, const real_t t, const real_t s, const real_t c) { return __CPROVER_uninterpreted_dFy_dt(r, t, s, c); }
+#define sin(a) __CPROVER_uninterpreted_sin(a)
+#define cos(a) __CPROVER_uninterpreted_cos(a)
+struct DomainGeometry { real_t (*dFx_dr)(const real_t, const real_t, const real_t, const real_t);
+                        real_t (*dFy_dr)(const real_t, const real_t, const real_t, const real_t);
+                        real_t (*dFx_dt)(const real_t, const real_t, const real_t, const real_t);
+                        real_t (*dFy_dt)(const real_t, const real_t, const real_t, const real_t); };
+struct DensityProfileCoefficients { real_t (*alpha)(const real_t); real_t (*beta)(const real_t); };
+#define DOMAIN_GEOMETRY_INIT { .dFx_dr = prov_dFx_dr, .dFy_dr = prov_dFy_dr, .dFx_dt = prov_dFx_dt, .dFy_dt = prov_dFy_dt }
+#define DENSITY_PROFILE_INIT { .alpha = prov_alpha, .beta = prov_beta }
+"""
+
+
+def wrap_subscripts(text, names, fmt):
+    """R12: NAME[expr] -> NAME[fmt(NAME, expr)] for every NAME in names (bracket matched)."""
+    from vlib import match_close
+    pat = re.compile(r"\b(" + "|".join(map(re.escape, names)) + r")\s*\[")
+    out, pos, n = [], 0, 0
+    while True:
+        m = pat.search(text, pos)
+        if not m:
+            out.append(text[pos:])
+            break
+        bo = m.end() - 1
+        bc = match_close(text, bo, "[", "]")
+        inner = wrap_subscripts(text[bo + 1:bc], names, fmt)[0]
+        out.append(text[pos:m.start()])
+        out.append("%s[%s]" % (m.group(1), fmt % (m.group(1), inner)))
+        pos = bc + 1
+        n += 1
+    return "".join(out), n
+
+
+def jacobian_macro(rules, layer, hashes):
+    src = Src.get("include/common/geometry_helper.h")
+    f = src.function("compute_jacobian_elements",
+                     must_params=["domain_geometry", "r", "theta", "sin_theta", "cos_theta", "coeff_alpha",
+                                  "arr", "att", "art", "detDF"])
+    hashes["compute_jacobian_elements"] = sha(f["body"])
+    body = common_body_rewrites(f["body"], rules, layer)
+    return fn_to_macro("compute_jacobian_elements", [p[1] for p in f["params"]], body)
+
+
+def levelcache_instance(O, layer, rules, maxn, maxr, maxt, hashes):
+    """globals O__<member> for every data member of LevelCache + obtainValues as macro O__obtainValues +
+    the accessors (checked to be `return <member>;`)."""
+    hdr = Src.get("include/Level/level.h")
+    cpp = Src.get("src/Level/levelCache.cpp")
+    for acc, mem in LC_ACCESSORS.items():
+        f = cpp.function("LevelCache::" + acc)
+        if "".join(f["body"].split()) != "return%s;" % mem:
+            raise ExtractError("LevelCache::%s is no longer `return %s;`" % (acc, mem))
+    for mem in list(LC_VECS) + LC_SCALARS + LC_OBJS:
+        if not re.search(r"\b%s\s*;" % re.escape(mem), hdr.text):
+            raise ExtractError("LevelCache member %s not found in level.h" % mem)
+    dim = {"t": maxt, "r": maxr, "n": maxn}
+    out = ["/* ---- LevelCache instance %s ---- */" % O]
+    for v, k in LC_VECS.items():
+        out.append("static real_t %s__%s[%d]; static int %s__%s_size;" % (O, v, dim[k], O, v))
+    out.append("static _Bool %s__cache_density_profile_coefficients_, %s__cache_domain_geometry_;" % (O, O))
+    out.append("static const struct DomainGeometry %s__domain_geometry_ = DOMAIN_GEOMETRY_INIT;" % O)
+    out.append("static const struct DensityProfileCoefficients %s__density_profile_coefficients_ = DENSITY_PROFILE_INIT;" % O)
+    out.append("#define %s__cacheDensityProfileCoefficients() %s__cache_density_profile_coefficients_" % (O, O))
+    out.append("#define %s__cacheDomainGeometry() %s__cache_domain_geometry_" % (O, O))
+    f = hdr.function("obtainValues", must_params=["i_r", "i_theta", "global_index", "r", "theta", "sin_theta",
+                                                  "cos_theta", "coeff_beta", "arr", "att", "art", "detDF"])
+    hashes["LevelCache::obtainValues"] = sha(f["body"])
+    body = common_body_rewrites(f["body"], rules, layer)
+    members = list(LC_VECS) + LC_SCALARS + LC_OBJS
+    body, n = wrap_subscripts(body, list(LC_VECS), "VCHK(%s, %s)")
+    rules.log.append(("R12.sized_subscript", n))
+    body = re.sub(r"\b(" + "|".join(map(re.escape, members)) + r")\b", lambda m: O + "__" + m.group(1), body)
+    out.append(fn_to_macro(O + "__obtainValues", [p[1] for p in f["params"]], body))
+    return "\n".join(out) + "\n"
+
+
+VCHK = r"""
+/* R12: a subscript of a sized vector carries the size assertion of Vector<T>::operator[] / std::vector's contract */
+#define VCHK(a, i) (__CPROVER_assert((i) >= 0 && (i) < a##_size, "vector subscript within size: " #a), (i))
+"""
+
+
+def alias_defs(body, rules, obj, table, fname):
+    """R2 for `const auto& NAME = obj.ACC();`: the line is removed; NAME is #define'd to the member global
+    for the extent of the function (an alias has no storage in either language)."""
+    defs = []
+
+    def rep(m):
+        name, acc = m.group(1), m.group(2)
+        if acc not in table:
+            raise ExtractError("%s: alias of unknown accessor %s" % (fname, acc))
+        defs.append((name, "%s__%s" % (obj, table[acc])))
+        return ""
+
+    body = re.sub(r"const\s+auto\s*&\s*(\w+)\s*=\s*%s\.(\w+)\(\)\s*;" % re.escape(obj), rep, body)
+    rules.log.append(("R2.alias(%s)" % fname, len(defs)))
+    return body, defs
+
+
+def emit_class_methods(cls, methods, rules, layer, hashes, lc="level_cache_", pre_rewrite=None, vec_names=(),
+                       enum_types=()):
+    """methods: list of (relpath, method) in callee-first order.  Emits every method as a C function
+    `<cls>_<method>__impl(value params)` (R1, R3); within the class block the unqualified method name is a
+    wrapper macro of the original arity so call sites stay verbatim."""
+    out = ["/* ======== class %s ======== */" % cls]
+    emitted = []
+    for rel, m in methods:
+        f = Src.get(rel).function("%s::%s" % (cls, m))
+        hashes["%s::%s" % (cls, m)] = sha(f["body"])
+        body = f["body"]
+        if pre_rewrite:
+            body = pre_rewrite(m, body, rules)
+        body, adefs = alias_defs(body, rules, lc, LC_ACCESSORS, "%s::%s" % (cls, m))
+        if re.search(r"\bauto\b", body):
+            raise ExtractError("%s::%s: unhandled `auto` declaration" % (cls, m))
+        body = rules.sub("R10.obtainValues", re.escape(lc) + r"\.obtainValues\(", lc + "__obtainValues(", body)
+        body = rules.sub("R10.lc_accessor", re.escape(lc) + r"\.(cacheDensityProfileCoefficients|cacheDomainGeometry)\(\)",
+                         lc + r"__\1()", body)
+        if vec_names:
+            vn = "|".join(map(re.escape, vec_names))
+            body = rules.sub("R3.vector_assign", r"(?m)^(\s*)(%s)\s*=\s*(%s)\s*;" % (vn, vn),
+                             r"\1VEC_COPY(\2, \3);", body)
+        body = rules.sub("R9.omp_get_max_threads", r"\bomp_get_max_threads\(\)", "verif_omp_max_threads", body)
+        for e in emitted:
+            check_call_sites(body, e["name"], e["kinds"])
+        f["body"] = body
+        e = emit_function_globals("%s_%s" % (cls, m), f, rules, layer, callname=m, enum_types=enum_types)
+        for (a, t) in adefs:
+            out.append("#define %s %s" % (a, t))
+        out.append(e["text"])
+        for (a, t) in adefs:
+            out.append("#undef %s" % a)
+        out.append(e["wrapper"])
+        emitted.append(e)
+    for e in emitted:
+        out.append("#undef %s" % e["name"])
+    return "\n".join(out) + "\n", emitted
+
+
+OPERATOR_PRELUDE = r"""
+#define omp_set_num_threads(n) ((void)0)      /* dropped: thread-count call */
+static int verif_omp_max_threads;             /* omp_get_max_threads(): chosen by the harness (1 = sequential branch) */
+static int num_omp_threads_;
+static _Bool DirBC_Interior_;
+#define VEC_COPY(dst, src) do { for (int vc_i = 0; vc_i < dst##_size; vc_i++) dst[vc_i] = src[vc_i]; } while (0)
+"""
